@@ -253,6 +253,8 @@ def run(tier):
         if rep is not None and rep.split()[0] == "raise" and req["method"] in METHODS:
             # the same unsupported request in a session that has just served a valid, larger request of the same method
             execute(dict(base(), method=req["method"], via=req["via"], rows=21, cols=21 if (req["via"] or req["method"] in ("linbasex", "rbasex")) else 15))
+            # … and the same frame with every option at its valid default (so that whatever the method caches for this frame exists)
+            execute(dict(req, dir="inverse", reg=None, out=None, origin=None, crop="maintain_size", sym="average", uq=(True,) * 4))
             primed = execute(req)
             if primed == "raise":
                 primed = execute(req)         # … and once more: the refusal must not have left the request half-accepted
